@@ -13,4 +13,8 @@ META = {
    technique="TLA+/TLC: Naive.tla and SemiNaive.tla model-checked against Semantics.tla; both real evaluators run on TLC-generated programs and validated by Trace_Model",
    text="Both evaluators are executed from equal stores on every program of scope E1 (safe rules), every transform-free one-rule E2 program and simulated larger E2 programs; TLC compares each resulting store with the stratified model, so the two stores are equal whenever both match. Naive.tla (T20) and SemiNaive.tla (T01) are model-checked against the same definition.",
    note="Trusted: TLC, Semantics.tla, mgjson. Scope: transform-free programs as the property states; programs with kind errors are classified, not judged."),
+ "C02": dict(level="model_checking", ref="DESIGN.md section 6 C02",
+   technique="TLA+/TLC: Semantics!Aggregate as oracle, SemiNaive!DoPhase model-checked (tmp-name and feedback variants), TLC-generated aggregating programs replayed into the engine and validated by Trace_Model",
+   text="Every program of <= 2 aggregating/reader rules of the aggregation vocabulary (single- and multi-atom bodies, 0/1/2 key variables, count/sum/min/max/avg/collect_distinct, several rules per head, aggregation over a recursive lower stratum, rules reading or recursing over the aggregate) x 4 base-fact sets, plus simulated 4-rule programs, is executed on all stores; TLC folds each rule's own solution set and compares all head facts (both inclusions).",
+   note="Trusted: TLC, Semantics.tla, mgjson (float->exact ratio for averages, lists read as sets for collect_distinct). Not covered: wildcards in aggregated bodies, float reducers, collect (ordered), pick_any."),
 }
